@@ -161,7 +161,7 @@ def run_names(case) -> CaseResult:
 
 # ------------------------------------------------------------------ (c) ops
 
-OPS_C = list(pb.CONSTRAINED) + ["silu_glu", "sdpa", "add"]  # (add has the most branches: weighted twice)
+OPS_C = list(pb.CONSTRAINED) + ["silu_glu", "sdpa", "sdpa", "add"]  # (add and attention have the most branches: weighted up)
 SCALE_ROLES = {"gelu": ["input"], "silu": ["input"], "softmax": ["input"], "linear": ["input"], "linear_readout": ["input"],
                "conv1d": ["input"], "matmul": ["left", "right"], "add": ["input", "other"]}
 
